@@ -955,7 +955,9 @@ func WrapPhysicalFeature(f PhysicalFeature, features FeaturesByID) PhysicalFeatu
 
 func (t Tags) ClosedPath() bool {
 	start := t.Reference(0).Source()
-	end := t.Reference(len(t.References()) - 1).Source()
+	// Index by position in the geometry, rather than among the references,
+	// since paths can mix references with literal points.
+	end := t.Reference(t.GeometryLen() - 1).Source()
 	return start == end && start.IsValid()
 }
 
